@@ -21,7 +21,22 @@ import (
 	"github.com/B1NARY-GR0UP/originium/types"
 )
 
+// Merge merges sorted lists: of entries with the same key the one from the list with the larger index wins,
+// deleted entries are removed from the result
 func Merge(lists ...[]types.Entry) []types.Entry {
+	var merged []types.Entry
+	for _, entry := range MergeVersions(lists...) {
+		if entry.Tombstone {
+			continue
+		}
+		merged = append(merged, entry)
+	}
+	return merged
+}
+
+// MergeVersions merges like Merge but keeps deleted entries:
+// a tombstone is a version of its key and has to keep shadowing the older versions in deeper levels
+func MergeVersions(lists ...[]types.Entry) []types.Entry {
 	h := &Heap{}
 	heap.Init(h)
 
@@ -55,9 +70,6 @@ func Merge(lists ...[]types.Entry) []types.Entry {
 	var merged []types.Entry
 
 	for _, entry := range latest {
-		if entry.Tombstone {
-			continue
-		}
 		merged = append(merged, entry)
 	}
 
